@@ -40,13 +40,21 @@ func c08Case(rt *rapid.T, rec *vt.Rec) {
 	s := newSession(rt, cfg, nHosts+nClients)
 	defer s.close()
 	var hosts []*c08Host
+	healthy := rapid.Bool().Draw(rt, "healthyPopulation")
 	for i := 0; i < nHosts; i++ {
 		h := &c08Host{Idx: i, Name: s.agents[i].id.name}
 		h.Kind = rapid.SampledFrom([]string{"geth", "geth", "parity", ""}).Draw(rt, "kind")
 		h.age = rapid.SampledFrom(c08Ages).Draw(rt, "age")
-		h.Age = h.age.String()
 		h.Conn = rapid.SampledFrom([]string{"live", "live", "live", "closed", "rereg-closeold", "rereg-keepold"}).Draw(rt, "conn")
 		h.Behave = rapid.SampledFrom([]string{"ack", "ack", "ack", "slowack", "lateack", "error", "noresult", "never"}).Draw(rt, "behave")
+		if healthy && rapid.IntRange(0, 5).Draw(rt, "perturbed") > 0 {
+			// mostly healthy populations: the count rules only show when enough hosts cooperate
+			h.Kind = "geth"
+			h.age = rapid.SampledFrom([]time.Duration{0, 30 * time.Second, 119900 * time.Millisecond}).Draw(rt, "freshAge")
+			h.Conn = rapid.SampledFrom([]string{"live", "live", "rereg-closeold"}).Draw(rt, "liveConn")
+			h.Behave = rapid.SampledFrom([]string{"ack", "ack", "slowack"}).Draw(rt, "ackBehave")
+		}
+		h.Age = h.age.String()
 		switch h.Behave {
 		case "slowack":
 			h.delay = time.Duration(rapid.Int64Range(1, int64(5*time.Second)-1).Draw(rt, "delay"))
@@ -153,7 +161,7 @@ func c08Case(rt *rapid.T, rec *vt.Rec) {
 		logf("requester %s keep-alive reporting %v -> tracked peers %v", requester.name, names(rep), names(e.Active))
 	}
 	// the request
-	legacy := !reqIsHost && rapid.IntRange(0, 3).Draw(rt, "legacyClient") == 0
+	legacy := !reqIsHost && rapid.IntRange(0, 2).Draw(rt, "legacyClient") == 0
 	kind := rapid.SampledFrom([]string{"", "", "geth", "parity"}).Draw(rt, "reqKind")
 	supply := 0
 	for _, h := range hosts {
